@@ -92,6 +92,7 @@ type History struct {
 	Script     []Op     `json:"script"`
 	Labels     []string `json:"labels"`
 	Obs        []Obs    `json:"obs"`
+	Verdicts   []int    `json:"verdicts"`        // one per AEntry label: 1 appended, 0 compared with a stored same-share partial, -1 not observed
 	Flags      []string `json:"flags,omitempty"` // harness-level anomalies (must stay empty)
 	NonTrivial bool     `json:"nontrivial"`
 	Fired      int      `json:"fired"`
@@ -320,6 +321,14 @@ func (r *recorder) entry(call, idx int, ev string) {
 	r.evs = append(r.evs, event{kind: "entry", call: call, idx: idx, ev: ev})
 }
 
+func (r *recorder) isBad(call, idx int) bool {
+	r.mu.Lock()
+	defer r.mu.Unlock()
+	ci := r.calls[call]
+
+	return ci != nil && strings.HasPrefix(ci.ents[idx], "EBad")
+}
+
 func (r *recorder) flag(s string) {
 	r.mu.Lock()
 	defer r.mu.Unlock()
@@ -466,15 +475,18 @@ func runHistory(t *testing.T, h *History) {
 		invoke := func(id int, c Call, duty core.Duty, set core.ParSignedDataSet) {
 			cctx := context.WithValue(ctx, ctxKey{}, id)
 			rec.add(event{kind: "begin", call: id})
-			if c.Plain && resolveStatusName(c) != "Expired" {
-				// order not observable: list the entries in pubkey order
+			if resolveStatusName(c) != "Expired" {
+				// plain mode: order not observable, list the entries in pubkey order. Probe mode: only
+				// the entries whose subcommittee index cannot be read (they never reach store).
 				idx := make([]int, len(c.Batch))
 				for i := range idx {
 					idx[i] = i
 				}
 				sort.Slice(idx, func(a, b int) bool { return c.Batch[idx[a]].PK < c.Batch[idx[b]].PK })
 				for _, i := range idx {
-					rec.entry(id, i, "")
+					if c.Plain || rec.isBad(id, i) {
+						rec.entry(id, i, "")
+					}
 				}
 			}
 			var err error
@@ -578,8 +590,14 @@ func assemble(h *History, rec *recorder) {
 			}
 			h.Labels = append(h.Labels, fmt.Sprintf("AEntry %d (%s)", e.call, ci.ents[e.idx]))
 			h.Obs = append(h.Obs, Obs{L: "entry", C: e.call, Ev: e.ev})
-			if e.ev == "marshal" {
+			switch e.ev {
+			case "marshal":
 				h.Ignored++
+				h.Verdicts = append(h.Verdicts, 0)
+			case "clone":
+				h.Verdicts = append(h.Verdicts, 1)
+			default:
+				h.Verdicts = append(h.Verdicts, -1)
 			}
 		case "end":
 			ended[e.call] = true
@@ -876,6 +894,48 @@ func genExempt(r *rand.Rand, refire bool) History {
 	return History{Kind: kind, T: th, Script: s}
 }
 
+// genExemptBoundary: slot 0 holds fewer than t shares including the flooding share, which then sends
+// exactly 8..11 further exits (the cap is 10 entries per share, the 11th evicts the oldest); then
+// it repeats slot 0 and/or the other shares complete slot 0, so that whether and when its
+// slot-0 signature was evicted shows in the verdicts and in the threshold calls.
+func genExemptBoundary(r *rand.Rand) History {
+	n := 4 + r.Intn(3)
+	th := threshold(n)
+	typ := []int{4, 6}[r.Intn(2)]
+	plain := r.Intn(3) == 0
+	flood := 1 + r.Intn(n)
+	var s []Op
+	others := r.Perm(n)
+	have := 1 + r.Intn(th-1) // shares on slot 0 before the flood, flood included: < th
+	s = append(s, single(0, typ, plain, Ent{PK: 0, Share: flood}))
+	cnt := 1
+	var rest []int
+	for _, o := range others {
+		if o+1 == flood {
+			continue
+		}
+		if cnt < have {
+			s = append(s, single(0, typ, plain, Ent{PK: 0, Share: o + 1}))
+			cnt++
+		} else {
+			rest = append(rest, o+1)
+		}
+	}
+	k := 8 + r.Intn(4)
+	for slot := 1; slot <= k; slot++ {
+		s = append(s, single(slot, typ, plain, Ent{PK: 0, Share: flood}))
+	}
+	if r.Intn(2) == 0 {
+		s = append(s, single(0, typ, plain, Ent{PK: 0, Share: flood}))
+	}
+	for _, sh := range rest {
+		s = append(s, single(0, typ, plain, Ent{PK: 0, Share: sh}))
+	}
+	s = append(s, single(0, typ, plain, Ent{PK: 0, Share: flood}), single(1, typ, plain, Ent{PK: 0, Share: flood}))
+
+	return History{Kind: "exempt-boundary", T: th, Script: s}
+}
+
 // genConc: several goroutines store concurrently (shares racing for the threshold-th insert,
 // duplicates, an equivocation), then a few sequential stores.
 func genConc(r *rand.Rand) History {
@@ -982,9 +1042,15 @@ func TestGen(t *testing.T) {
 		if err != nil {
 			t.Fatal(err)
 		}
-		h := History{ID: 0, Kind: "replay", T: replay.T, Script: replay.Script}
-		runHistory(t, &h)
-		if err := hx.WriteJSON("parsigdb_traces.json", []History{h}); err != nil {
+		// the outcome of a set with a rejected entry can depend on Go's map iteration order: run the
+		// script several times
+		var hs []History
+		for i := 0; i < 16; i++ {
+			h := History{ID: i, Kind: "replay", T: replay.T, Script: replay.Script}
+			runHistory(t, &h)
+			hs = append(hs, h)
+		}
+		if err := hx.WriteJSON("parsigdb_traces.json", hs); err != nil {
 			t.Fatal(err)
 		}
 		return
@@ -1024,6 +1090,9 @@ func TestGen(t *testing.T) {
 	}
 	for i := 0; i < nRandom/30; i++ {
 		hs = append(hs, genExempt(r, true))
+	}
+	for i := 0; i < nRandom/10; i++ {
+		hs = append(hs, genExemptBoundary(r))
 	}
 	for i := 0; i < nRandom/3; i++ {
 		hs = append(hs, genConc(r))
